@@ -233,7 +233,13 @@ pub fn case(rng: &mut Rng, w: &Weights, tag: &str) -> String {
                 if catch_unwind(AssertUnwindSafe(|| u.compose::<false, false>(&g2))).is_ok() {
                     extra_before = Some(u);
                 }
-                run = Box::new(move |t| t.compose::<true, false>(&g));
+                if rng.chance(1, 4) {
+                    run = Box::new(move |t| t.compose::<true, true>(&g));
+                } else {
+                    run = Box::new(move |t| t.compose::<true, false>(&g));
+                }
+            } else if rng.chance(1, 4) {
+                run = Box::new(move |t| t.compose::<false, true>(&g));
             } else {
                 run = Box::new(move |t| t.compose::<false, false>(&g));
             }
@@ -399,7 +405,7 @@ pub fn case(rng: &mut Rng, w: &Weights, tag: &str) -> String {
 // C01: a network is distilled (a) by the real builder in one call and (b) step by step with the same public
 // operations the builder uses; (b) is dumped as a history, and the final trees of (a) and (b) are compared.
 
-use affinitree::distill::builder::{afftree_from_layers, Layer};
+use affinitree::distill::builder::{afftree_from_layers, afftree_from_layers_csv, afftree_from_layers_verbose, Layer};
 use affinitree::linalg::affine::Polytope;
 
 fn layer_desc(l: &Layer) -> String {
@@ -624,7 +630,18 @@ pub fn net_case(rng: &mut Rng, thorough: bool) -> String {
         out.push_str(&layer_desc(l));
     }
     let pre_tree = pre.as_ref().map(|(_, t)| t.clone());
-    let built = catch_unwind(AssertUnwindSafe(|| afftree_from_layers(n, &layers, pre_tree)));
+    // the three public wrappers of the builder (silent, console progress, csv log) must build the same tree
+    let wrapper = rng.below(6);
+    let built = catch_unwind(AssertUnwindSafe(|| match wrapper {
+        0 => afftree_from_layers_verbose(n, &layers, pre_tree),
+        1 => {
+            let path = std::env::temp_dir().join(format!("avharness-{}.csv", std::process::id()));
+            let t = afftree_from_layers_csv(n, &layers, &path, pre_tree);
+            let _ = std::fs::remove_file(&path);
+            t
+        }
+        _ => afftree_from_layers(n, &layers, pre_tree),
+    }));
     match built {
         Ok(b) => {
             let mut sa = String::new();
